@@ -1062,12 +1062,12 @@ def rule_r12(prog, res) -> None:
                     continue
                 joins = []
                 for x in ast.walk(v):
-                    if isinstance(x, ast.BinOp):
-                        l_me = any(isinstance(y, ast.Name) and y.id == me for y in ast.walk(x.left))
-                        r_me = any(isinstance(y, ast.Name) and y.id == me for y in ast.walk(x.right))
+                    if isinstance(x, ast.BinOp) and isinstance(x.op, (ast.Add, ast.Sub, ast.Mult, ast.Div, ast.FloorDiv, ast.MatMult, ast.Pow, ast.Mod)):
+                        # one operand is (a member of) the other operand of the operator, the other side is not: a member
+                        # of self, directly or through what self.to_dict() / its slots hand out
                         l_ot = any(isinstance(y, ast.Name) and y.id == oth for y in ast.walk(x.left))
                         r_ot = any(isinstance(y, ast.Name) and y.id == oth for y in ast.walk(x.right))
-                        if (l_me and r_ot and not l_ot) or (l_ot and r_me and not r_ot):
+                        if l_ot != r_ot:
                             joins.append(x)
                 for x in joins:
                     n += 1
@@ -1113,6 +1113,48 @@ def rule_r13(prog, res) -> None:
                     res.ok("C17.R13", res.site(m, f"{ci.name}.{pname}"), f"length of axis {k} ({axes[k]}) of self.{arr}")
     if n < 3:
         raise AnalysisError(f"C17.R13: only {n} size properties typed, minimum 3")
+
+
+def rule_r14(prog, res) -> None:
+    """a correlation function only holds pair counts that belong together: on every path of `CorrFunc.__init__` that
+    stores an optional member (dr / rd / rr that is given), a raising compatibility check of that member against `dd`
+    (`is_compatible(…, require=True)`) has been passed before — decided on the symbolic paths (helpers and the closure
+    that carries the check looked through)"""
+    from .. import symx
+
+    cf = prog.find_class("CorrFunc")
+    init = cf.methods.get("__init__")
+    if init is None:
+        raise AnalysisError("C17.R14: CorrFunc.__init__ vanished")
+    res.touch(init)
+    members = [q for q in init.param_names()[2:]]
+    if len(members) < 3:
+        raise AnalysisError(f"C17.R14: optional members of CorrFunc not recognised ({members})")
+    n = 0
+    from ..inline import inlined
+
+    init_an = inlined(prog, init, desugar=True)
+    for given in members:
+        env = {q: (ast.Name(id=q, ctx=ast.Load()) if q == given else ast.Constant(value=None)) for q in members}
+        paths = [p for p in symx.Explorer(prog, inline=symx.inline_private_helpers(prog, public={"is_compatible"})).run(init_an, env) if p.outcome != "raise"]
+        if not paths:
+            raise AnalysisError(f"C17.R14: CorrFunc.__init__ has no completing path with only {given} given")
+        n += 1
+        unchecked = []
+        for p in paths:
+            ok = False
+            for ev in p.calls("is_compatible"):
+                req = kwarg(ev.expr, "require")
+                if isinstance(req, ast.Constant) and req.value is True and symx.mentions(ev.expr, lambda y: isinstance(y, ast.Name) and y.id == given):
+                    ok = True
+            if not ok:
+                unchecked.append(p)
+        if unchecked:
+            res.violation("C17.R14", init, init.node, f"CorrFunc(dd, …, {given}=…) completes without a raising compatibility check of `{given}` against `dd`: pair counts with another binning / other patches are accepted and combined by the estimator bin by bin, patch by patch", key_extra=f"corrfunc-member-unchecked-{given}")
+        else:
+            res.ok("C17.R14", res.site(init, given), "checked against dd with require=True before it is stored")
+    if n < 3:
+        raise AnalysisError("C17.R14: fewer than 3 members analysed")
 
 
 NB = 3  # number of bins of the witness binning
@@ -1221,4 +1263,5 @@ RULES = [
     ("C17.R11", rule_r11, QUICK),
     ("C17.R12", rule_r12, QUICK),
     ("C17.R13", rule_r13, QUICK),
+    ("C17.R14", rule_r14, QUICK),
 ]
